@@ -441,6 +441,22 @@ pub fn run(w: &Workload) -> Outcome7 {
                 Prop::C06,
                 Fail::new("C06/more-lost-than-truncated", format!("{lost} accepted items never delivered but only {truncated} truncations of at most {cap} items were counted")),
             ));
+            fails.push((
+                Prop::C09,
+                Fail::new("C09/discarded-without-counted-truncation", format!("{lost} accepted items never delivered but only {truncated} truncations of at most {cap} items were counted")),
+            ));
+        }
+        // no plain send anywhere: nothing may be truncated, so every item a fallible/blocking send reported
+        // as enqueued must arrive ("they either enqueue the item or hand it back")
+        let any_plain = w.senders.iter().flatten().any(|o| matches!(o, SOp::Send));
+        if !any_plain && (lost > 0 || truncated > 0) {
+            fails.push((
+                Prop::C09,
+                Fail::new(
+                    "C09/fallible-send-silently-discarded",
+                    format!("no plain send in the workload, yet {lost} items reported as enqueued never arrived ({truncated} truncations counted)"),
+                ),
+            ));
         }
     }
     for f in flushes.iter().filter(|f| f.ok) {
@@ -502,7 +518,24 @@ pub fn sop(stall: bool) -> impl Strategy<Value = SOp> {
 }
 
 pub fn workload(stall_weight: u32) -> impl Strategy<Value = Workload> {
-    (prop_oneof![10 => Just(false), stall_weight => Just(true)]).prop_flat_map(|stall| {
+    (prop_oneof![10 => Just(false), stall_weight => Just(true)], prop_oneof![3 => Just(false), 1 => Just(true)]).prop_flat_map(|(stall, no_plain)| {
+        workload_inner(stall).prop_map(move |mut w| {
+            if no_plain {
+                for ops in w.senders.iter_mut() {
+                    for o in ops.iter_mut() {
+                        if matches!(o, SOp::Send) {
+                            *o = SOp::TrySend;
+                        }
+                    }
+                }
+            }
+            w
+        })
+    })
+}
+
+fn workload_inner(stall: bool) -> impl Strategy<Value = Workload> {
+    Just(stall).prop_flat_map(|stall| {
         (
             prop_oneof![1u8..=4, 1u8..=64],
             any::<bool>(),
@@ -528,6 +561,7 @@ pub fn check(w: &Workload, which: Prop, cx: &mut Cx) -> vcore::Res {
     cx.class_if(out.multi_item_batches > 0, "e7:multi-item-batch");
     cx.class_if(w.outcomes.iter().any(|o| matches!(o, POut::Panic | POut::Err)), "e7:failing-processor");
     cx.class_if(out.retries > 0, "e7:retry");
+    cx.class_if(!w.senders.iter().flatten().any(|o| matches!(o, SOp::Send)), "e7:no-plain-send");
     cx.nontrivial(match which {
         Prop::C06 => w.senders.len() >= 2 && out.batches >= 2,
         Prop::C07 => out.flush_true > 0 && out.batches >= 1,
